@@ -121,6 +121,61 @@ func skipsNonPodKeys(p *fg.Parsed, body *ast.BlockStmt) bool {
 	return res
 }
 
+// enqueuesOnlyOnNotFound: the body sends to p.unreleased at least once, every such send is (directly) inside the body
+// of an `if` whose condition is exactly `apierrors.IsNotFound(err1)`, and err1 is assigned exactly once, from the error
+// of the pods/binding call (`if err := …Pods(…).Bind(…); err != nil { err1 = err … }`).
+func enqueuesOnlyOnNotFound(p *fg.Parsed, body *ast.BlockStmt) bool {
+	sends, guarded := 0, 0
+	ast.Inspect(body, func(n ast.Node) bool {
+		if _, ok := n.(*ast.SendStmt); ok && strings.HasPrefix(p.Src(n), "p.unreleased <-") {
+			sends++
+		}
+		if ifs, ok := n.(*ast.IfStmt); ok && p.Src(ifs.Cond) == "apierrors.IsNotFound(err1)" && ifs.Else == nil {
+			for _, st := range ifs.Body.List {
+				if _, ok := st.(*ast.SendStmt); ok && strings.HasPrefix(p.Src(st), "p.unreleased <-") {
+					guarded++
+				}
+			}
+		}
+		return true
+	})
+	assigns, fromBinding := 0, 0
+	ast.Inspect(body, func(n ast.Node) bool {
+		if as, ok := n.(*ast.AssignStmt); ok && len(as.Lhs) == 1 && p.Src(as.Lhs[0]) == "err1" {
+			assigns++
+		}
+		if ifs, ok := n.(*ast.IfStmt); ok && ifs.Init != nil && strings.Contains(p.Src(ifs.Init), ".Bind(context.TODO(), &corev1.Binding{") &&
+			strings.HasPrefix(p.Src(ifs.Init), "err := p.Client.CoreV1().Pods(") && p.Src(ifs.Cond) == "err != nil" {
+			for _, st := range ifs.Body.List {
+				if p.Src(st) == "err1 = err" {
+					fromBinding++
+				}
+			}
+		}
+		return true
+	})
+	return sends >= 1 && sends == guarded && assigns == 1 && fromBinding == 1
+}
+
+// finishedIsPhaseOnly: the body is the single statement `return A || B` with A, B the comparisons of pod.Status.Phase
+// with corev1.PodFailed and corev1.PodSucceeded (either order).
+func finishedIsPhaseOnly(p *fg.Parsed, body *ast.BlockStmt) bool {
+	if len(body.List) != 1 {
+		return false
+	}
+	r, ok := body.List[0].(*ast.ReturnStmt)
+	if !ok || len(r.Results) != 1 {
+		return false
+	}
+	be, ok := r.Results[0].(*ast.BinaryExpr)
+	if !ok || be.Op.String() != "||" {
+		return false
+	}
+	x, y := p.Src(be.X), p.Src(be.Y)
+	f, s := "pod.Status.Phase == corev1.PodFailed", "pod.Status.Phase == corev1.PodSucceeded"
+	return (x == f && y == s) || (x == s && y == f)
+}
+
 func before(a, b int) bool { return a >= 0 && (b < 0 || a < b) }
 
 func gen(repo string) (map[string]string, error) {
@@ -491,6 +546,15 @@ func gen(repo string) (map[string]string, error) {
 	lg := guardIdx(bd, bind.Body, []string{"args.PodUID != \"\"", "pod.UID != args.PodUID"}, "return fmt.Errorf")
 	firstUse := firstIdx(bd, bind.Body, "p.lockPod(", "p.allocateIP(", "p.ipam.")
 	fmt.Fprintf(&b, "/-- Bind refuses (before the pod lock and any IPAM call) when the lister's pod has another non-empty UID than args.PodUID -/\ndef bindChecksListerUID : Bool := %s\n", fg.LeanBool(before(li, lg) && before(lg, firstUse) && firstUse >= 0))
+	fmt.Fprintf(&b, "/-- Bind: every send of a release event (`p.unreleased <-`) sits under `if apierrors.IsNotFound(err1)`, err1 being the error of the pods/binding call -/\ndef bindEnqueuesReleaseOnlyOnNotFound : Bool := %s\n", fg.LeanBool(enqueuesOnlyOnNotFound(bd, bind.Body)))
+	// ---- finished(pod): exactly the two phase comparisons
+	phaseOnly := false
+	if pf, err := fg.ParseFile(repo, dir+"floatingip_plugin.go"); err == nil {
+		if fn, err := pf.Fn("", "finished"); err == nil {
+			phaseOnly = finishedIsPhaseOnly(pf, fn.Body)
+		}
+	}
+	fmt.Fprintf(&b, "/-- finished(pod) is exactly `return pod.Status.Phase == corev1.PodFailed || pod.Status.Phase == corev1.PodSucceeded` -/\ndef finishedChecksPhaseOnly : Bool := %s\n", fg.LeanBool(phaseOnly))
 	b.WriteString("\nend Galaxy.Generated.Plugin\n")
 	return map[string]string{"Plugin.lean": b.String()}, nil
 }
